@@ -42,12 +42,12 @@ excl(int n)
 }
 
 // ---- tolerances (relative to the magnitude = sum of absolute values of the terms of the compared quantity) -------------
-// calibrated over VERIF_SEED=1..10 quick runs, see the maxima in evidence/C09.json; observed maxima in the comments
-const double TOL = 1e-5;        // STIR vs reference, all pairwise clauses (observed max ~6e-7)
+// calibrated over 8 seeds x 8000 cases plus the quick runs VERIF_SEED=1..5 (maxima in evidence/C09.json); observed maxima in the comments
+const double TOL = 1e-5;        // STIR vs reference, all pairwise clauses (observed max 8e-7)
 const double TOL_HV = 2e-5;     // Hessian-times-input: STIR sums up to 125 products in float (observed max ~1.1e-6)
-const double TOL_PLS = 1e-4;    // PLS is evaluated in float with a cancellation |g|^2 - <g,xi>^2 (observed max ~4e-6)
-const double TOL_ANCHOR = 1e-6; // reference derivative vs long double central difference (observed max ~2e-9)
-const double TOL_REL = 2e-6;    // relations on STIR alone that only re-order float operations (observed max ~2e-7)
+const double TOL_PLS = 1e-4;    // PLS is evaluated in float with a cancellation |g|^2 - <g,xi>^2 (observed max 6.8e-6)
+const double TOL_ANCHOR = 1e-6; // reference derivative vs long double central difference (observed max: gradient 7e-9, Hessian 3e-8)
+const double TOL_REL = 2e-6;    // relations on STIR alone that only re-order float operations (observed max 1.1e-7)
 
 // ---- case -------------------------------------------------------------------------------------------------------------
 struct Cfg
@@ -922,11 +922,11 @@ check_pairwise(const Cfg& k)
               q += t;
               qa += std::fabs(t);
             }
-        stats().maxi("max negative v'Hv / sum|terms| " + kn, qa > 0 ? std::max(0., -q / qa) : 0.);
         // absolute slack: entries below FLT_MIN are denormal floats with an absolute rounding error of 1.4e-45 each
         double dn = 0;
         for (int i = 0; i < N; ++i)
           dn += std::fabs((*d)[std::size_t(i)]);
+        stats().maxi("max negative v'Hv / sum|terms| " + kn, qa > 0 ? std::max(0., (-q - double(FLT_MIN) * dn * dn) / qa) : 0.);
         VF_CHECK(q >= -TOL * qa - double(FLT_MIN) * dn * dn, kn, " declares itself convex but v'Hv = ", q, " < 0 (sum of |terms| ", qa, ")");
       }
     // and through accumulate_Hessian_times_input
@@ -1469,6 +1469,22 @@ fixed_cases(int)
   return v;
 }
 
+//! input classes excluded because of known findings (work/notes/C09_findings.md): a replayed case of such a class is
+//! neither pass nor fail.  F3 (PLS border voxels) and F5 (Quadratic approximate Hessian) are narrower than a case and are
+//! handled inside check().
+std::string
+known_signature(const json& c)
+{
+  const int kind = c.value("prior", 0), wmode = c.value("wmode", 0);
+  if (excl(1) && kind != PLS && wmode == 2 && c.value("wcentre", 0.) != 0.)
+    return "C09:F1:user weights with non-zero centre element";
+  if (excl(2) && kind != QUAD && wmode == 1 && c.value("construct", 0) == 0)
+    return "C09:F2:only_2D passed to the explicit constructor of RDP/Logcosh/PLS";
+  if (excl(4) && kind == PLS && (c.value("kmode", 0) == 1 || c.value("kmode", 0) == 2))
+    return "C09:F4:PLS with non-uniform kappa";
+  return "";
+}
+
 } // namespace
 
 const Property&
@@ -1480,6 +1496,7 @@ the_property()
   p.check = check;
   p.nontrivial = nontrivial;
   p.fixed_cases = fixed_cases;
+  p.known_signature = known_signature;
   p.rule = "image with >= 2 voxels in >= 2 dimensions and (kappa image or user weights or anisotropic voxel sizes)";
   return p;
 }
